@@ -126,7 +126,7 @@ func runC02(c *core.Ctx) {
 	}
 	// PRNG-drawn multi-site trees
 	r := c.Rng("random-trees")
-	for i, n := 0, c.Pick(150, 6000); i < n; i++ {
+	for i, n := 0, c.Pick(150, 50000); i < n; i++ {
 		rootDir := []string{"w", "/abs/w", "deep/er/w", "."}[r.Intn(4)]
 		b := newTreeBuilder(rootDir)
 		root := refRootSkeleton()
